@@ -172,6 +172,7 @@ static int mb_02(X0&, X2&) {
     return 2;
 }
 static use_classes<X0, X1, X2, X3, X4, X5, PB> g_b_classes;
+static use_classes<A, B, C, D, PB> g_b_shared_classes; // the calling policies' classes too
 static MB::add_function<mb_11> g_b1;
 static MB::add_function<mb_02> g_b2;
 static void update_other_policy(int* r) {
@@ -180,6 +181,33 @@ static void update_other_policy(int* r) {
     X5 x5;
     r[0] = MB::fn(x3, x3);
     r[1] = MB::fn(x3, x5);
+}
+
+// a policy whose facets carry a second template argument, and a policy obtained
+// from it with rebind, updated concurrently (on its own classes)
+struct PMX : policy::basic_policy<
+                 PMX, policy::std_rtti,
+                 policy::vptr_map<PMX, std::map<type_id, const std::uintptr_t*>>,
+                 policy::vectored_error<PMX>> {};
+struct PMX2 : PMX::rebind<PMX2> {};
+// it registers the SAME classes as the calling policy (sharing class ids)
+struct kbx;
+using MBX = method<kbx, int(virtual_<A&>, virtual_<A&>), PMX2>;
+static int mbx_bb(B&, B&) {
+    return 1;
+}
+static int mbx_ac(A&, C&) {
+    return 2;
+}
+static use_classes<A, B, C, D, PMX2> g_bx_classes;
+static MBX::add_function<mbx_bb> g_bx1;
+static MBX::add_function<mbx_ac> g_bx2;
+static void update_rebound_policy(int* r) {
+    update<PMX2>();
+    B b;
+    C c;
+    r[0] = MBX::fn(b, b);
+    r[1] = MBX::fn(b, c);
 }
 
 struct PA : policy::release::rebind<PA> {};
@@ -245,6 +273,8 @@ static body_fn body_of(int which) {
         return Scene<P>::t2;
     case 3:
         return Scene<P>::t3;
+    case 5:
+        return update_rebound_policy;
     default:
         return update_other_policy;
     }
@@ -277,6 +307,8 @@ static void prepare_scenario(const Scenario& sc) {
         prepare<PD>(sc);
     else if (p == "map")
         prepare<PM>(sc);
+    else if (p == "mx")
+        prepare<PMX>(sc);
     else
         prepare<PI>(sc);
 }
@@ -433,7 +465,12 @@ int main(int argc, char** argv) {
         scenarios.push_back({"calls2+update", p, {2, 4}});
     }
     scenarios.push_back({"calls123", "rel", {1, 2, 3}});
+    // 5 = update of a policy obtained by rebind from the calling policy
+    scenarios.push_back({"calls1+update-rebound", "mx", {1, 5}});
+    scenarios.push_back({"calls2+update-rebound", "mx", {2, 5}});
     if (mode == "thorough") {
+        scenarios.push_back({"calls12+update-rebound", "mx", {1, 2, 5}});
+        scenarios.push_back({"calls3+update-rebound", "mx", {3, 5}});
         for (const char* p : {"dbg", "map", "ind"}) {
             scenarios.push_back({"calls13", p, {1, 3}});
             scenarios.push_back({"calls12+update", p, {1, 2, 4}});
@@ -534,6 +571,7 @@ int main(int argc, char** argv) {
     std::vector<Scenario> scenarios = {
         {"all", "rel", {1, 2, 3, 4}}, {"all", "dbg", {1, 2, 3, 4}},
         {"all", "map", {1, 2, 3, 4}}, {"all", "ind", {1, 2, 3, 4}},
+        {"all", "mx", {1, 2, 3, 5}},
     };
     long wrong = 0;
     for (auto& sc : scenarios) {
